@@ -108,6 +108,10 @@ static LOST_ONCE: std::sync::atomic::AtomicBool = std::sync::atomic::AtomicBool:
 impl Default for RunOpts {
     fn default() -> Self {
         let lost = LOST_ONCE.load(std::sync::atomic::Ordering::Relaxed);
+        // minimisation candidates of a run that is known to block get a short fuse
+        if let Some(ms) = std::env::var("DST_PATIENCE_MS").ok().and_then(|s| s.parse::<u64>().ok()) {
+            return RunOpts { patience: Duration::from_millis(ms) };
+        }
         RunOpts { patience: if lost { Duration::from_millis(250) } else { Duration::from_secs(10) } }
     }
 }
@@ -342,6 +346,16 @@ pub fn check_c18(op: &Op, cfg: &SlotCfg, out: &Outcome, thread: usize, opi: usiz
         Class::Panic => {}
         Class::Skip => {}
         Class::Ok => {
+            // "its interp_into always receives the unmodified query value(s)": a call that
+            // succeeded must have handed every query element to the strategy at least once
+            // (how often, and in which order, is not stated and not checked)
+            let n = query.len().min(64);
+            let all = if n == 64 { u64::MAX } else { (1u64 << n) - 1 };
+            if out.stub.received & all != all {
+                let missing: Vec<usize> = (0..n).filter(|i| out.stub.received >> i & 1 == 0).collect();
+                push("query-element-not-delivered", format!("the call succeeded but the strategy never received query element(s) #{:?} of {} ({} callbacks in total)", missing, query.len(), out.stub.calls));
+                return;
+            }
             // result shape = query shape ++ trailing, element [i.., lane] = enc(q[i..], lane)
             let want_shape: Vec<usize> = match &op.call {
                 Call::Scalar { .. } => {
